@@ -403,4 +403,21 @@ def rfcAuthentic (P : Prims) (ufrag pwd : Bytes) (pkt : Bytes) : Bool :=
      | none => false
    | none => false) && StunRfc.integrityOk P pwd pkt
 
+/-! ### histories: datagrams, keepalive ticks, clock -/
+
+/-- everything that happens to the transport: datagrams, keepalive ticks (with the transaction id the
+tick draws), the clock advancing -/
+inductive HEv where
+  | pkt (sock : Sock) (src : Addr) (i : Inp)
+  | tick (tx : Bytes)
+  | advance (t : Nat)
+
+def hstep (s : St) : HEv → St
+  | .pkt sock src i => (step s sock src i).1
+  | .tick tx => (tick s tx).1
+  | .advance t => { s with now := s.now + t }
+
+def hrun (s : St) (evs : List HEv) : St := evs.foldl hstep s
+
+
 end RtcModel.IceAuth
